@@ -421,8 +421,10 @@ class AbstractPathModelDAG(ABC):
             max_length = self.G.number_of_nodes()
             if self.length_attr is not None:
                 max_length = sum(self.G[u][v].get(self.length_attr, 1) for (u,v) in self.G.edges())
+            # positions are sums of edge lengths: integral only if the lengths are
+            lengths_are_integral = self.length_attr is None or all(float(self.G[u][v].get(self.length_attr, 1)).is_integer() for (u,v) in self.G.edges())
             self.edge_position_vars = self.solver.add_variables(
-                self.edge_indexes, name_prefix="position", lb=0, ub=max_length, var_type="integer"
+                self.edge_indexes, name_prefix="position", lb=0, ub=max_length, var_type="integer" if lengths_are_integral else "continuous"
             )
             for i in range(self.k):
                 for (u,v) in self.G.edges():
@@ -441,8 +443,9 @@ class AbstractPathModelDAG(ABC):
             max_length = self.G.number_of_nodes()
             if self.length_attr is not None:
                 max_length = sum(self.G[u][v].get(self.length_attr, 1) for (u,v) in self.G.edges())
+            lengths_are_integral = self.length_attr is None or all(float(self.G[u][v].get(self.length_attr, 1)).is_integer() for (u,v) in self.G.edges())
             self.path_length_vars = self.solver.add_variables(
-                self.path_indexes, name_prefix="path_length", lb=0, ub=max_length, var_type="integer"
+                self.path_indexes, name_prefix="path_length", lb=0, ub=max_length, var_type="integer" if lengths_are_integral else "continuous"
             )
             for i in range(self.k):
                 self.solver.add_constraint(
